@@ -89,6 +89,38 @@ func genFacts(repo string, field, scal, root *pkgSrc, out string) {
 			}
 		}
 	}
+	// what the package demands of a hash obtained from the registry beyond the hash.Hash interface: type assertions on a
+	// hash value, calls of methods that hash.Hash does not have
+	var extra []string
+	if sharedImporter != nil {
+		info := sharedImporter.info
+		isHash := func(t types.Type) bool {
+			return t != nil && (t.String() == "hash.Hash" || strings.HasSuffix(t.String(), "crypto.Hash"))
+		}
+		hashMethods := map[string]bool{"Write": true, "Sum": true, "Reset": true, "Size": true, "BlockSize": true}
+		for _, files := range sharedImporter.files {
+			for _, f := range files {
+				ast.Inspect(f, func(n ast.Node) bool {
+					switch x := n.(type) {
+					case *ast.TypeAssertExpr:
+						if tv, ok := info.Types[x.X]; ok && isHash(tv.Type) {
+							extra = append(extra, "type assertion on a hash value: "+nodeText(sharedImporter.fset, x))
+						}
+					case *ast.CallExpr:
+						if sel, ok := x.Fun.(*ast.SelectorExpr); ok {
+							if tv, ok := info.Types[sel.X]; ok && tv.Type != nil && tv.Type.String() == "hash.Hash" && !hashMethods[sel.Sel.Name] {
+								extra = append(extra, "method outside hash.Hash: "+nodeText(sharedImporter.fset, x.Fun))
+							}
+						}
+					}
+					return true
+				})
+			}
+		}
+	}
+	sort.Strings(extra)
+	b.WriteString("/-- demands on a registry hash beyond the `hash.Hash` interface (type assertions, extra methods) -/\n")
+	b.WriteString("def hashExtraRequirements : List String := [" + quoteAll(uniq(extra)) + "]\n\n")
 	b.WriteString("/-- hash identifiers looked up through the `crypto` registry (`crypto.<ID>.New()`) in the root package -/\n")
 	b.WriteString("def registryHashes : List String := [" + quoteAll(sortedKeys(ids)) + "]\n\n")
 	b.WriteString("/-- hash packages whose constructor is called directly (no registry lookup) -/\n")
